@@ -208,6 +208,7 @@ Proof.
     destruct (s_cur s) as [g0|] eqn:Ec; [|apply Plain; rewrite <- H; reflexivity].
     destruct (t_prev t) eqn:Epv; [apply Plain; rewrite <- H; reflexivity|].
     destruct (s_full s) eqn:Efu; [|apply Plain; rewrite <- H; reflexivity].
+    destruct (t_kind t) eqn:Ekd; cbn [andb] in H; [|apply Plain; rewrite <- H; reflexivity].
     injection H as <- <-. unfold rank. rewrite Hpc. cbn [t_pc]. unfold fullw. cbn [s_full]. rewrite Efu. lia.
   - (* GIvLoad *)
     destruct (w_have (s_word s)); injection H as <- <-; unfold rank; rewrite Hpc; cbn [t_pc with_st2 with_pc]; [|lia].
